@@ -40,8 +40,10 @@ def encode_prim(t, av):
         return base64.b64encode(bytes(av)).decode('ascii')
     if t.name == 'Timestamp':
         return ts_text(av, t.args['format'])
-    if t.name in PRIM_FLOATS and isinstance(av, int) and not isinstance(av, bool):
-        return float(av)
+    if t.name in PRIM_FLOATS and isinstance(av, int):
+        return float(av)          # (also a bool: numbers are written as numbers)
+    if t.name in PRIM_INTS and isinstance(av, bool):
+        return int(av)
     return av
 
 
